@@ -1,5 +1,6 @@
 import Momo.Proof.ProbeAdd
 import Momo.Proof.TrEqProbe
+import Momo.Proof.TrEqOpenBytes
 /-!
 # C13 — Open-addressing lookups examine every slot where the key can be
 
@@ -162,3 +163,171 @@ example : Tr.open2n2_pvGetMaxProbe (TrEq.runOpen2N2 1 [3, 300, 131073, 7]).1 (Tr
 example : Tr.openN1_GetMaxProbe (TrEq.runOpenN1 [3, 300, 9]) 10 = 320 := by decide
 
 end Momo.Probe
+
+/-! ## Byte level: `BucketOpenN1` / `BucketOpen8` (the in-bucket part of "a present key is always found")
+
+Model `Momo/Model/OpenBytes.lean` (`Momo.OpenB`): the bytes `mData[0 .. maxCount]` of one bucket exactly as laid out in
+HashBucketOpenN1.h (short hashes, the last logical slot doubling as state / count byte, max-probe byte), `ptCalcShortHash`,
+`AddCrt`, `Remove` with its compaction, `IsFull` / `WasFull`, `Find` of `BucketOpenN1` (scalar loop, forward or reverse item
+order) and of `BucketOpen8` (SSE2 movemask by the specification of the intrinsics; the 64-bit SWAR expression as written).
+Lemmas: `Momo/Proof/OpenBytes*.lean`; run against the real bucket classes by `harness/c13_openbytes.cpp` (both `Find`
+variants of `BucketOpen8` are compiled). -/
+namespace Momo.OpenB
+
+/-- **byte-level bucket invariant, every history.** From the constructed (or cleared) bucket, for every `maxCount` in 1..7, both
+item orders and every sequence of legal `AddCrt` / `Remove` calls (the source's assertions: room left / item present; 64-bit
+hash codes): the short-hash byte of every occupied slot is the short hash of the item there, every other slot holds the empty
+marker, and the slot of the last logical index holds `emptyShortHash + count` until the bucket is full (`Bucket.Inv`, stated
+through `expByte`). `hs` is the ghost content: the items' hash codes in storage order, which is the abstract bucket of C01. -/
+theorem C13_openbytes_inv_history (mc : Nat) (rev : Bool) (h0 : 0 < mc) (h8 : mc < Extracted.openN1MaxCountLimit)
+    (ops : List Op) (hl : legalHist mc [] ops) :
+    (ops.foldl Bucket.step (Bucket.new mc rev)).Inv (ops.foldl absStep []) :=
+  run_inv ops (Bucket.new mc rev) [] (new_inv mc rev h0 h8) hl
+
+/-- **what the invariant says, slot by slot**: the count decoded from the state byte is the number of items, `IsFull` holds
+exactly at `maxCount` items, an occupied slot holds its item's short hash, and the byte of a slot WITHOUT item (248, or the
+count byte 248 .. 254) is not the short hash of any 64-bit hash code — `ptCalcShortHash` never reaches `emptyShortHash`. -/
+theorem C13_openbytes_inv_meaning (b : Bucket) (hs : List Nat) (hI : b.Inv hs) :
+    b.count = hs.length ∧ (b.isFull = true ↔ hs.length = b.maxCount) ∧
+    (∀ j, j < b.maxCount → phys b.maxCount b.reverse j < hs.length →
+        b.data j = calcShortHash (hs.getD (phys b.maxCount b.reverse j) 0)) ∧
+    (∀ j, j < b.maxCount → ¬ phys b.maxCount b.reverse j < hs.length →
+        ∀ h, h < 2 ^ 64 → b.data j ≠ calcShortHash h) ∧
+    (∀ h, h < 2 ^ 64 → calcShortHash h < emptyShortHash) := by
+  refine ⟨inv_count_eq hI, ?_, ?_, ?_, calcShortHash_lt⟩
+  · rw [inv_isFull_eq hI]; simp
+  · intro j hj hocc
+    rw [hI.2.2.2.2 j hj]; unfold expByte; rw [if_pos hocc]
+  · intro j hj hocc h hh e
+    have := (cand_iff hI h hh j hj).mp (by rw [e]; simp)
+    exact hocc this.1
+
+/-- **`Find`, every scan order.** Under the invariant, for every 64-bit hash code, every predicate and EVERY order in which the
+slots `< maxCount` might be scanned (`scan order` = test the slots of `order` whose byte equals the short hash, in that order):
+(1) every slot tested holds an item whose short hash matches — a slot without item is never read as a candidate;
+(2) a returned slot holds such an item and satisfies the predicate; (3) if some slot of the order does, the search succeeds;
+(4) if exactly one slot does (distinct keys), every order returns it; (5) `BucketOpenN1::Find` is the scan of `0, 1, …`. -/
+theorem C13_openbytes_find_every_order (b : Bucket) (hs : List Nat) (hI : b.Inv hs) (h : Nat) (hh : h < 2 ^ 64)
+    (pred : Nat → Bool) (order : List Nat) (ho : ∀ p ∈ order, p < b.maxCount) :
+    (∀ p ∈ order.filter (fun i => b.data i == calcShortHash h),
+        phys b.maxCount b.reverse p < hs.length ∧ calcShortHash (itemAt b hs p) = calcShortHash h) ∧
+    (∀ p, scan order b.data (calcShortHash h) pred = some p → p ∈ order ∧ Hit b hs h pred p) ∧
+    (∀ p ∈ order, Hit b hs h pred p → (scan order b.data (calcShortHash h) pred).isSome = true) ∧
+    (∀ p ∈ order, Hit b hs h pred p → (∀ q, Hit b hs h pred q → q = p) →
+        scan order b.data (calcShortHash h) pred = some p) ∧
+    b.findN1 h pred = scan (List.range b.maxCount) b.data (calcShortHash h) pred :=
+  ⟨scan_cands_occupied hI h hh order ho, fun p => scan_sound hI h hh pred order ho p,
+   fun p hp hit => scan_complete hI h hh pred order p hp hit,
+   fun p hp hit hu => scan_unique hI h hh pred order ho p hp hit hu, findN1_eq b h pred⟩
+
+/-- **the 64-bit SWAR expression of `BucketOpen8::Find`, bit level.** For every short-hash byte and every 8-byte word,
+`(x - 0x0101010101010101) & ~x & 0x0080808080808080` with `x = (shortHash * 0x0101010101010101) ^ word`, all in 64-bit
+arithmetic as written, has exactly the bits `8j + 7` of the FLAGGED lanes `j < 7` set, where lane `j` is flagged iff its byte
+equals the short hash, or it equals `shortHash ^ 1` and lane `j - 1` is flagged (`swarFlag`: the borrow of the subtraction
+leaves a matching lane and enters a lane that differs in bit 0 only). -/
+theorem C13_open8_swar_mask (sh : Nat) (hsh : sh < 256) (d : Nat → Nat) (hd : ∀ j, j < 8 → d j < 256) :
+    swarMask sh (word8 d) =
+      ofLanes [128 * b2n (swarFlag sh d 0), 128 * b2n (swarFlag sh d 1), 128 * b2n (swarFlag sh d 2),
+               128 * b2n (swarFlag sh d 3), 128 * b2n (swarFlag sh d 4), 128 * b2n (swarFlag sh d 5),
+               128 * b2n (swarFlag sh d 6), 0] :=
+  swarMask_eq sh hsh d hd
+
+/-- the set specification the SWAR mask is compared with: a matching lane is always flagged, a flagged lane holds the short
+hash or its bit-0 neighbour, and the LOWEST flagged lane always matches -/
+theorem C13_open8_swar_flags (sh : Nat) (d : Nat → Nat) (j : Nat) :
+    ((d j == sh) = true → swarFlag sh d j = true) ∧
+    (swarFlag sh d j = true → d j = sh ∨ d j = sh ^^^ 1) ∧
+    (swarFlag sh d j = true → (∀ i, i < j → swarFlag sh d i = false) → d j = sh) :=
+  ⟨exact_imp_flag sh d j, flag_imp sh d j, flag_first_exact sh d j⟩
+
+/-- **`BucketOpen8::Find`, both variants, against the scalar scan of `BucketOpenN1<., 7, false>`.**
+SSE2 (mask = set of lanes equal to the short hash, the specified meaning of `_mm_cmpeq_epi8` + `_mm_movemask_epi8`): the
+`ctz` / `mask &= mask - 1` loop visits exactly the candidates of the scalar loop in the same order, so the two searches
+coincide for every bucket and every predicate.
+SWAR: the loop visits the flagged lanes in ascending order — a superset of the scalar candidates (`C13_open8_swar_not_exact`
+shows it can be a proper one); in a bucket satisfying the invariant every flagged lane, the false candidates included, holds
+an item (never a slot without item), and for every predicate that can only hold where the short-hash byte matches
+(equal keys have equal hash codes) the SWAR search returns exactly what the scalar search returns. -/
+theorem C13_open8_find (b : Bucket) (h : Nat) (pred : Nat → Bool) :
+    (ssePositions 32 (sseMask (calcShortHash h) b.data) = candsN1 b.data (calcShortHash h) 7 ∧
+     (b.maxCount = 7 → b.find8sse h pred = b.findN1 h pred)) ∧
+    ((∀ j, j < 8 → b.data j < 256) →
+      swarPositions 64 (swarMask (calcShortHash h) (word8 b.data)) = (List.range 7).filter (swarFlag (calcShortHash h) b.data) ∧
+      b.find8swar h pred = ((List.range 7).filter (swarFlag (calcShortHash h) b.data)).find? pred ∧
+      candsN1 b.data (calcShortHash h) 7
+        = ((List.range 7).filter (swarFlag (calcShortHash h) b.data)).filter (fun j => b.data j == calcShortHash h) ∧
+      (b.maxCount = 7 → (∀ j, j < 7 → pred j = true → (b.data j == calcShortHash h) = true) →
+        b.find8swar h pred = b.findN1 h pred)) ∧
+    (∀ hs, b.Inv hs → h < 2 ^ 64 → ∀ j, j < b.maxCount → swarFlag (calcShortHash h) b.data j = true →
+      phys b.maxCount b.reverse j < hs.length) := by
+  refine ⟨⟨(find8sse_eq b h pred).2, fun hmc => ?_⟩, fun hd => ⟨(find8swar_eq b h pred hd).2, (find8swar_eq b h pred hd).1,
+    cands7_eq_filter _ _, fun hmc hc => find8swar_eq_findN1 hmc hd h pred hc⟩, fun hs hI hh j hj hf => flag_occupied hI h hh j hj hf⟩
+  rw [(find8sse_eq b h pred).1, findN1_eq, hmc]
+
+/-- the eight bytes `247 248 248 247 246 249 249 247` (a state the harness reproduces on the real bucket), short hash 247 -/
+def exWord : Nat → Nat := fun j => [247, 248, 248, 247, 246, 249, 249, 247].getD j 0
+
+/-- **the SWAR variant does test a slot the scalar scan skips**: lane 4 holds `246 = 247 ^ 1` above the matching lane 3 -/
+theorem C13_open8_swar_not_exact :
+    swarPositions 64 (swarMask 247 (word8 exWord)) = [0, 3, 4] ∧ candsN1 exWord 247 7 = [0, 3] ∧
+    ssePositions 32 (sseMask 247 exWord) = [0, 3] := by decide +kernel
+
+/-! ### the byte-level code itself (T1b): `Momo.Tr.openN1_*`, `Momo.Tr.open8_*` are regenerated from the headers on every check -/
+
+/-- **the invariant for the bytes the TRANSLATED `AddCrt` / `Remove` write**: along every legal history from the constructed
+bucket, the byte array computed by `Tr.openN1_AddCrt` / `Tr.openN1_Remove` (which use the translated `pvGetCount`, `pvGetState`,
+`pvGetShortHash` index, `ptCalcShortHash`) holds at every slot the byte the invariant prescribes for the abstract content, and the
+translated `pvGetCount` / `IsFull` / `WasFull` read the item count / fullness / `true` off those bytes. -/
+theorem C13_openbytes_inv_history_translated (mc : Nat) (rev : Bool) (h0 : 0 < mc) (h8 : mc < Extracted.openN1MaxCountLimit)
+    (ops : List Op) (hl : legalHist mc [] ops) :
+    (∀ j, j < mc → ops.foldl (TrEq.trObStep rev mc) (Bucket.new mc rev).data j = expByte mc rev (ops.foldl absStep []) j) ∧
+    Tr.openN1_pvGetCount (ops.foldl (TrEq.trObStep rev mc) (Bucket.new mc rev).data) rev mc = (ops.foldl absStep []).length ∧
+    Tr.openN1_IsFull (ops.foldl (TrEq.trObStep rev mc) (Bucket.new mc rev).data) rev mc
+      = decide ((ops.foldl absStep []).length = mc) ∧
+    Tr.openN1_WasFull = true := by
+  have hI := C13_openbytes_inv_history mc rev h0 h8 ops hl
+  have hrun := TrEq.trObRun_eq ops (Bucket.new mc rev) [] (new_inv mc rev h0 h8) hl
+  have hmc : (ops.foldl Bucket.step (Bucket.new mc rev)).maxCount = mc := run_maxCount ops _
+  have hrev : (ops.foldl Bucket.step (Bucket.new mc rev)).reverse = rev := run_reverse ops _
+  have hrun' : ops.foldl (TrEq.trObStep rev mc) (Bucket.new mc rev).data = (ops.foldl Bucket.step (Bucket.new mc rev)).data := hrun
+  rw [hrun']
+  generalize ops.foldl Bucket.step (Bucket.new mc rev) = B at *
+  subst hmc hrev
+  refine ⟨fun j hj => hI.2.2.2.2 j hj, ?_, ?_, rfl⟩
+  · rw [TrEq.tr_ob_getCount B h0, inv_count_eq hI]
+  · rw [TrEq.tr_ob_isFull B h0, inv_isFull_eq hI]
+
+/-- **the SWAR mask of the translated statements**: `Tr.open8_swarMask` (the two statements of the `#else` branch with their
+64-bit multiplication, subtraction and complement) applied to the translated short hash and the 8-byte word of the bucket is
+exactly the flag bits of `C13_open8_swar_mask`; the translated lane index, loop test and loop step, assembled into the loop
+(`TrEq.trFind8swar`), visit the flagged lanes in ascending order; the translated candidate test of the scalar loop is the byte
+comparison; and the table variant of `pvCountTrailingZeros15` is count-trailing-zeros on `0 < mask < 128`. -/
+theorem C13_open8_find_translated (b : Bucket) (h : Nat) (pred : Nat → Bool) (hd : ∀ j, j < 8 → b.data j < 256) :
+    Tr.open8_swarMask (Tr.openN1_ptCalcShortHash h) (word8 b.data) =
+      ofLanes [128 * b2n (swarFlag (calcShortHash h) b.data 0), 128 * b2n (swarFlag (calcShortHash h) b.data 1),
+               128 * b2n (swarFlag (calcShortHash h) b.data 2), 128 * b2n (swarFlag (calcShortHash h) b.data 3),
+               128 * b2n (swarFlag (calcShortHash h) b.data 4), 128 * b2n (swarFlag (calcShortHash h) b.data 5),
+               128 * b2n (swarFlag (calcShortHash h) b.data 6), 0] ∧
+    TrEq.trFind8swar b.data h pred = ((List.range 7).filter (swarFlag (calcShortHash h) b.data)).find? pred ∧
+    (∀ i sh, Tr.openN1_Find_candidate b.data i sh = (b.data i == sh)) ∧
+    (∀ m, m < 128 → 0 < m → Tr.open8_ctz15_table m = ctz 32 m) := by
+  refine ⟨?_, ?_, fun i sh => TrEq.tr_ob_candidate b.data i sh, TrEq.tr_ob_ctz15_table⟩
+  · rw [TrEq.tr_ob_calcShortHash, TrEq.tr_ob_swarMask _ _ (TrEq.ob_word8_lt _ hd)]
+    exact swarMask_eq _ (calcShortHash_lt256 h) _ hd
+  · rw [TrEq.trFind8swar_eq b h pred hd]
+    exact (find8swar_eq b h pred hd).1
+
+/-! Non-vacuity: concrete histories and words. -/
+/-- `BucketOpenN1<3, true>`: three items, the first removed — the last item moves into its slot, the count byte returns -/
+example : (List.range 4).map ([Op.add (5 <<< 40), .add (70000 <<< 40), .add (2 ^ 64 - 1), .rem 0].foldl Bucket.step (Bucket.new 3 true)).data
+    = [250, 1, 247, 0] := by decide +kernel
+example : legalHist 3 [] [Op.add (5 <<< 40), .add (70000 <<< 40), .add (2 ^ 64 - 1), .rem 0] := by decide
+/-- a full `BucketOpen8`-shaped bucket: all seven lanes equal; SSE2 and scalar visit all seven, first accepted wins -/
+example : ((List.replicate 7 (Op.add (2 ^ 64 - 1))).foldl Bucket.step (Bucket.new 7 false)).find8sse (2 ^ 64 - 1) (fun p => p == 5) = some 5 := by
+  decide +kernel
+example : ((List.replicate 7 (Op.add (2 ^ 64 - 1))).foldl Bucket.step (Bucket.new 7 false)).find8swar (2 ^ 64 - 1) (fun p => p == 5) = some 5 := by
+  decide +kernel
+example : TrEq.trFind8swar exWord (2 ^ 64 - 1) (fun p => p == 4) = some 4 ∧ findLoopN1 exWord 247 (fun p => p == 4) 7 0 = none := by
+  decide +kernel
+
+end Momo.OpenB
